@@ -10,8 +10,8 @@ git -C "$wt" apply "$patch" || { echo "patch does not apply"; git -C /repo workt
 mkdir -p "$h"; (cd /verif/harness && tar cf - --exclude target .) | (cd "$h" && tar xf -)
 sed -i "s#/repo/crates#$wt/crates#g" "$h/Cargo.toml"
 for p in $props; do
-  (cd /verif && VERIF_HARNESS_DIR="$h" VERIF_SCRATCH_REPLAYS=1 ./check "$p" --tier quick > "/verif/.work/mut_${name}_$p.out" 2>&1; rc=$?
+  (cd /verif && VERIF_HARNESS_DIR="$h" VERIF_WORK_DIR="/verif/.work/w_mut_$name" VERIF_SCRATCH_REPLAYS=1 ./check "$p" --tier quick > "/verif/.work/mut_${name}_$p.out" 2>&1; rc=$?
    echo "$name $p rc=$rc violations=$(grep -c '^VIOLATION' /verif/.work/mut_${name}_$p.out)"; grep -A1 '^VIOLATION' "/verif/.work/mut_${name}_$p.out" | sed -n 2p | cut -c1-220)
 done
-rm -rf "$h"; git -C /repo worktree remove --force "$wt"
+rm -rf "$h" "/verif/.work/w_mut_$name"; git -C /repo worktree remove --force "$wt"
 cd /verif && git checkout -- evidence 2>/dev/null
